@@ -229,6 +229,7 @@ func C18(c *wk.Ctx) {
 			}
 		}
 		// long exhaustive units are split into sequences of at most 200 calls
+		var digest uint64
 		for len(sc.Calls) > 0 {
 			part := sc
 			if len(part.Calls) > 200 {
@@ -238,6 +239,7 @@ func C18(c *wk.Ctx) {
 			f, res, outcomes, done := runSeq(part, false)
 			u.Evals += int64(done)
 			u.Steps += res.Steps
+			digest = digest*1099511628211 ^ res.TraceHash ^ uint64(res.Steps)<<1 ^ wk.FNV(strings.Join(outcomes, ","))
 			u.Counters["sequences"]++
 			u.Counters["tasks_spawned"] += int64(res.Tasks - 1)
 			u.Counters["switches"] += res.Switches
@@ -262,6 +264,7 @@ func C18(c *wk.Ctx) {
 			}
 			u.AddFail(f)
 		}
+		u.Observe("digest", fmt.Sprintf("%016x", digest))
 		c.Emit(u)
 	}
 }
